@@ -1,14 +1,15 @@
 package props
 
 import (
-	"regexp"
-	"go/token"
 	"fmt"
 	"go/ast"
 	"go/constant"
+	"go/token"
 	"go/types"
+	"regexp"
 	"sort"
 	"strings"
+	"sync"
 
 	"octoverif/core"
 	"octoverif/engine/absint"
@@ -156,7 +157,41 @@ func runDecl(in *absint.Interp, fn *core.FuncRef, init func(st *absint.State, bi
 	return in.Run(fn.Decl.Type, fn.Decl.Recv, fn.Decl.Body, init, ref0)
 }
 
+// litBinds: function literals returned by a named factory, with the factory's parameters bound to the arguments of
+// the call that produced them (registered by the function table).
+var (
+	litBinds   = map[*ast.FuncLit]map[types.Object]ast.Expr{}
+	litBindsMu sync.Mutex
+)
+
+func setLitBinds(lit *ast.FuncLit, b map[types.Object]ast.Expr) {
+	litBindsMu.Lock()
+	litBinds[lit] = b
+	litBindsMu.Unlock()
+}
+
+func getLitBinds(lit *ast.FuncLit) map[types.Object]ast.Expr {
+	litBindsMu.Lock()
+	defer litBindsMu.Unlock()
+	return litBinds[lit]
+}
+
 func runLit(in *absint.Interp, lit *ast.FuncLit, init func(st *absint.State, bind func(string, absint.Val)), ref0 string) ([]*absint.Outcome, error) {
+	if binds := getLitBinds(lit); len(binds) > 0 {
+		prev := in.Hooks.Ident
+		in.Hooks.Ident = func(st *absint.State, obj types.Object) (absint.Val, bool) {
+			if e, ok := binds[obj]; ok {
+				if tv, ok := in.Info.Types[e]; ok && tv.Value != nil {
+					return absint.Const{V: tv.Value}, true
+				}
+			}
+			if prev != nil {
+				return prev(st, obj)
+			}
+			return nil, false
+		}
+		defer func() { in.Hooks.Ident = prev }()
+	}
 	return in.Run(lit.Type, nil, lit.Body, init, ref0)
 }
 
@@ -318,6 +353,33 @@ func helperClosure(p *core.Program, fn *core.FuncRef) []*core.FuncRef {
 			if fr := idx[f]; fr != nil {
 				seen[f] = true
 				out = append(out, fr)
+			}
+			return true
+		})
+	}
+	return out
+}
+
+// bodyClosure: a body (of a function literal, say) followed by the bodies of the unexported helpers of package
+// pkgPath it reaches through static calls. For AST rules over function literals — the counterpart of helperClosure.
+func bodyClosure(p *core.Program, pkgPath string, info *types.Info, body ast.Node) []ast.Node {
+	helperInline(p, "", nil)
+	idx := helperDecls[p]
+	out := []ast.Node{body}
+	seen := map[*types.Func]bool{}
+	for i := 0; i < len(out) && i < 40; i++ {
+		ast.Inspect(out[i], func(n ast.Node) bool {
+			call, ok := n.(*ast.CallExpr)
+			if !ok {
+				return true
+			}
+			f, ok := core.Callee(info, call).(*types.Func)
+			if !ok || f.Pkg() == nil || f.Pkg().Path() != pkgPath || f.Exported() || seen[f] {
+				return true
+			}
+			if fr := idx[f]; fr != nil {
+				seen[f] = true
+				out = append(out, fr.Decl.Body)
 			}
 			return true
 		})
